@@ -49,7 +49,7 @@ RULE = ('kinds: FileStorage with blob_dir; BlobStorage proxy over '
         'non-trivial = >= 2 committed blob revisions or >= 1 failed/aborted '
         'blob transaction; distinct = op trace')
 BUDGET = {'quick': {'runs': 1600, 'wall': 300, 'chunk': 10},
-          'thorough': {'runs': 50000, 'wall': 3000, 'chunk': 20}}
+          'thorough': {'runs': 50000, 'wall': 1800, 'chunk': 20}}
 ASSUMPTIONS = [
     'blob directories live on a real tmpfs (BlobFile is an io.FileIO); '
     'faults are injected at ZODB\'s own os.rename/open calls; no crash '
